@@ -296,3 +296,49 @@ func Verify(msg, sig []byte, pk []byte) bool {
 	}
 	return true
 }
+
+// Secrets: the three 32-byte values a seed expands to.
+type Secrets struct{ SkSeed, SkPRF, Pub []byte }
+
+func Expand(seed []byte) Secrets {
+	r := make([]byte, 96)
+	sha3.ShakeSum256(r, seed)
+	return Secrets{r[:32], r[32:64], r[64:96]}
+}
+
+// SignPrefix computes index || R || WOTS signature for a given root, without any tree
+// (what a signature's first 2180 bytes must be for index idx under that root).
+func (s Secrets) SignPrefix(hf Hash, idx uint32, msg, root []byte) []byte {
+	R := hf.prf(s.SkPRF, toByte(idx, 32))
+	mh := hf.hmsg(R, root, idx, msg)
+	sig := append(toByte(idx, 4), R...)
+	sk := hf.wotsSK(s.SkSeed, idx)
+	for i, d := range digits(mh) {
+		sig = append(sig, hf.chain(sk[i], s.Pub, idx, uint32(i), 0, d)...)
+	}
+	return sig
+}
+
+// SparseTriple builds a self-consistent (signature, public key) for ANY height and index
+// without building the tree: the leaf of idx is real, the authentication path is the
+// given bytes (h*32), and the root is whatever they hash up to. The message hash depends
+// on the root, so the root is found first from the leaf and the path (neither depends on
+// the message), then the WOTS part is signed under that root.
+func (s Secrets) SparseTriple(hf Hash, h int, idx uint32, msg, auth []byte, desc [3]byte) (sig, pk []byte) {
+	node := hf.Leaf(s.SkSeed, s.Pub, idx)
+	li := idx
+	for l := 0; l < h; l++ {
+		sib := auth[l*N : (l+1)*N]
+		a := Addr{0, 0, 0, 2, 0, uint32(l), li >> 1, 0}
+		if li&1 == 0 {
+			node = hf.H(node, sib, s.Pub, a)
+		} else {
+			node = hf.H(sib, node, s.Pub, a)
+		}
+		li >>= 1
+	}
+	root := node
+	sig = append(s.SignPrefix(hf, idx, msg, root), auth[:h*N]...)
+	pk = append(append(append([]byte{}, desc[:]...), root...), s.Pub...)
+	return
+}
